@@ -48,21 +48,23 @@ bool H5Group::hasObject(const std::string &name) const {
 }
 
 bool H5Group::objectOfType(const std::string &name, H5O_type_t type) const {
-    H5O_info_t info;
-
     hid_t obj = H5Oopen(hid, name.c_str(), H5P_DEFAULT);
 
     if (!H5Iis_valid(obj)) {
         return false;
     }
 
-    HErr err = H5Oget_info(obj, &info);
-    err.check("Could not obtain object info");
-
-    bool res = info.type == type;
-
+    // the kind of the opened id tells the object type; the full object info is not needed
+    // (collecting it walks the heaps and free-space managers of the object)
+    H5I_type_t id_type = H5Iget_type(obj);
     H5Oclose(obj);
-    return res;
+
+    switch (type) {
+    case H5O_TYPE_GROUP:          return id_type == H5I_GROUP;
+    case H5O_TYPE_DATASET:        return id_type == H5I_DATASET;
+    case H5O_TYPE_NAMED_DATATYPE: return id_type == H5I_DATATYPE;
+    default:                      return false;
+    }
 }
 
 ndsize_t H5Group::objectCount() const {
